@@ -139,11 +139,23 @@ func runC07(c *ShardCtx) {
 			return
 		}
 		an := peg.Analyze(g)
+		// (every rule is a possible entrypoint of the generated parser: a rule that the first rule
+		// does not reach is still parsed with the Entrypoint option)
 		witness, witnessIn := "", []byte(nil)
-		for _, in := range inputs {
-			ref := peg.Run(g, in, nil, peg.Options{HasState: true, DynamicRecoveryScope: true, MaxEval: 3000})
-			if ref.Reentry != "" {
-				witness, witnessIn = ref.Reentry, in
+		var witnessEp *string
+		for ri, rl := range g.Rules {
+			var ep *string
+			if ri > 0 {
+				ep = strp(rl.Name)
+			}
+			for _, in := range inputs {
+				ref := peg.Run(g, in, nil, peg.Options{HasState: true, DynamicRecoveryScope: true, MaxEval: 3000, Entrypoint: ep})
+				if ref.Reentry != "" {
+					witness, witnessIn, witnessEp = ref.Reentry, in, ep
+					break
+				}
+			}
+			if witness != "" {
 				break
 			}
 		}
@@ -167,9 +179,9 @@ func runC07(c *ShardCtx) {
 			// miss: confirm on the real generated parser
 			detail := ""
 			if b := buildOrCount(c, text, core.Gen{}); b != nil {
-				o := rtapi.RunOpts{MaxExpr: 5000}
+				o := rtapi.RunOpts{MaxExpr: 5000, Entrypoint: witnessEp}
 				obs := b.Run(witnessIn, &o, nil)
-				detail = fmt.Sprintf("; generated parser on %q: val=%s errs=%v diverged=%v", witnessIn, obs.Val, msgs(obs), obs.Diverged)
+				detail = fmt.Sprintf("; generated parser on %q (%s): val=%s errs=%v diverged=%v", witnessIn, optsString(&o), obs.Val, msgs(obs), obs.Diverged)
 			}
 			known := ""
 			if an.HasCycle() && !peg.AnalyzeChoiceBlind(g).HasCycle() {
@@ -216,6 +228,12 @@ func runC07(c *ShardCtx) {
 			for _, tail := range []bool{false, true} {
 				for alt2 := range alt2s {
 					check(&peg.Grammar{Rules: []*peg.Rule{{Name: "A", Expr: mkRule(pre, ri, "A", tail, alt2)}}})
+					// the same rule NOT reachable from the first rule (it is still an entrypoint of the
+					// generated parser), and reachable only behind a terminal
+					if alt2 == 1 {
+						check(&peg.Grammar{Rules: []*peg.Rule{{Name: "Z0", Expr: peg.Lit("z")}, {Name: "A", Expr: mkRule(pre, ri, "A", tail, alt2)}}})
+						check(&peg.Grammar{Rules: []*peg.Rule{{Name: "Z0", Expr: peg.Seq(peg.Lit("z"), peg.Ref("A"))}, {Name: "A", Expr: mkRule(pre, ri, "A", tail, alt2)}}})
+					}
 					// a first alternative that is nullable but can fail, the recursion in a later one
 					if alt2 == 1 && !tail {
 						for _, first := range []func() *peg.Expr{func() *peg.Expr { return peg.And(peg.Not(peg.Any())) }, func() *peg.Expr { return peg.Not(a()) }, func() *peg.Expr { return peg.NotCode(0) }, func() *peg.Expr { return peg.Seq(peg.And(a()), peg.Lit("")) }} {
